@@ -2,13 +2,16 @@
 # usage: tools-benign.sh  — applies each behaviour-preserving patch under /verif/benign to a scratch worktree and runs the
 # quick checks of the properties whose harnesses touch the changed packages; every verdict must be PASS (or KNOWN-FINDING).
 declare -A MAP
-MAP[internal/queue]="C03 C04 C05 C12 C14"
-MAP[internal/ingress]="C01 C08 C09"
-MAP[internal/app]="C10 C11 C12 C18"
+MAP[internal/queue]="C03 C04 C05 C12 C14 C02 C13"
+MAP[internal/ingress]="C01 C08 C09 C07 C10"
+MAP[internal/app]="C10 C11 C12 C18 C15"
 MAP[internal/pullapi]="C04 C11"
 MAP[internal/dispatcher]="C06 C16 C17"
 MAP[internal/config]="C06 C11 C19"
-MAP[internal/mcp]="C20"
+MAP[internal/mcp]="C20 C14"
+MAP[internal/admin]="C14 C15 C01"
+MAP[internal/secrets]="C08"
+MAP[internal/workerapi]="C11"
 for f in ${1:-/verif/benign/*.diff}; do
   props=""
   for d in $(grep '^+++ b/' $f | sed 's|+++ b/||' | xargs -n1 dirname | sort -u); do props="$props ${MAP[$d]}"; done
